@@ -47,6 +47,8 @@ type Driver interface {
 	HandlerType(ctxAware bool) reflect.Type
 	Subscribe(bus *ebu.EventBus, class int, ctxAware bool, o SubOpts, cb HandlerCB) error
 	Unsubscribe(bus *ebu.EventBus, class int, ctxAware bool) error
+	// SubscribeReplay registers through SubscribeWithReplay (plain handlers only).
+	SubscribeReplay(bus *ebu.EventBus, ctx context.Context, subID string, o SubOpts, cb HandlerCB) error
 	Publish(bus *ebu.EventBus, id uint64)
 	PublishContext(bus *ebu.EventBus, ctx context.Context, id uint64)
 	Clear(bus *ebu.EventBus)
@@ -117,6 +119,11 @@ func (d *drv[T]) Subscribe(bus *ebu.EventBus, class int, ctxAware bool, o SubOpt
 	}
 	f := func(e T) { id, ok := d.id(e); cb(nil, id, ok) }
 	return ebu.Subscribe(bus, mkPlain[T](class, f), d.opts(o)...)
+}
+
+func (d *drv[T]) SubscribeReplay(bus *ebu.EventBus, ctx context.Context, subID string, o SubOpts, cb HandlerCB) error {
+	f := func(e T) { id, ok := d.id(e); cb(nil, id, ok) }
+	return ebu.SubscribeWithReplay(ctx, bus, subID, ebu.Handler[T](f), d.opts(o)...)
 }
 
 func (d *drv[T]) Unsubscribe(bus *ebu.EventBus, class int, ctxAware bool) error {
